@@ -411,18 +411,29 @@ impl<T: Sync + Send + 'static> Nucleo<T> {
         } else {
             #[cfg(nucleo_verif)]
             verif::yield_point("tick.before_try_lock", timeout);
-            let Some(worker) = self.worker.try_lock_arc_for(Duration::from_millis(timeout)) else {
-                #[cfg(nucleo_verif)]
-                verif::yield_point("tick.try_lock_failed", 0);
-                self.should_notify.store(true, Ordering::Release);
-                #[cfg(nucleo_verif)]
-                verif::yield_point("tick.after_rearm", 0);
-                return Status {
-                    changed: false,
-                    running: true,
-                };
-            };
-            worker
+            match self.worker.try_lock_arc_for(Duration::from_millis(timeout)) {
+                Some(worker) => worker,
+                None => {
+                    #[cfg(nucleo_verif)]
+                    verif::yield_point("tick.try_lock_failed", 0);
+                    self.should_notify.store(true, Ordering::SeqCst);
+                    atomic::fence(Ordering::SeqCst);
+                    #[cfg(nucleo_verif)]
+                    verif::yield_point("tick.after_rearm", 0);
+                    // The run may have finished (and looked at the flag) between the failed
+                    // attempt and the store above. In that case nobody is going to notify
+                    // us, so look again before reporting that the worker is still running.
+                    match self.worker.try_lock_arc() {
+                        Some(worker) => worker,
+                        None => {
+                            return Status {
+                                changed: false,
+                                running: true,
+                            }
+                        }
+                    }
+                }
+            }
         };
 
         let changed = inner.running;
@@ -446,8 +457,19 @@ impl<T: Sync + Send + 'static> Nucleo<T> {
             }
             #[cfg(nucleo_verif)]
             verif::yield_point("tick.before_spawn", 0);
-            self.pool
-                .spawn(move || unsafe { inner.run(status, cleared) })
+            self.pool.spawn(move || {
+                let completed = unsafe { inner.run(status, cleared) };
+                let should_notify = inner.should_notify.clone();
+                let notify = inner.notify.clone();
+                // release the lock *before* notifying: a notified tick must be able to
+                // pick up the results, and the flag must be read after the unlock so that
+                // a tick that failed to get the lock and then armed the flag is not missed
+                drop(inner);
+                atomic::fence(Ordering::SeqCst);
+                if completed && should_notify.load(Ordering::SeqCst) {
+                    notify()
+                }
+            })
         }
         Status { changed, running }
     }
